@@ -18,7 +18,9 @@ VERIF = os.path.dirname(os.path.dirname(os.path.abspath(__file__)))
 REPO = os.environ.get("VERIF_REPO", "/repo")
 COQ = os.path.join(VERIF, "coq")
 BUILD = os.path.join(VERIF, "build")
-EVID = os.path.join(VERIF, "evidence")
+# evidence/<id>.json describes runs against the tree under test; runs against a seeded worktree
+# (tools/seedtest.py) write theirs elsewhere so that the committed evidence stays that of /repo
+EVID = os.environ.get("VERIF_EVIDENCE_DIR") or os.path.join(VERIF, "evidence")
 NPROC = int(os.environ.get("VERIF_JOBS", "16"))
 COQC_TIMEOUT = int(os.environ.get("VERIF_COQC_TIMEOUT", "900"))
 
